@@ -24,6 +24,7 @@ type rewriter struct {
 	yieldFromFunc types.Object
 
 	// file context
+	file            *ast.File // the file being rewritten
 	coImportedName  string
 	seqImportedName string
 	yieldFuncDecls  map[*ast.FuncDecl]bool
@@ -160,6 +161,7 @@ func (r *rewriter) rewriteFile(f *loader.File, printer FilePrinter) {
 	pkg := f.Package()
 
 	// 1. init context
+	r.file = f.File
 	r.coImportedName, r.seqImportedName = parseOrImport(f.Pkg.Fset, f.File) // parse import name
 	r.comments = nil
 
